@@ -75,7 +75,8 @@ def ref_rate(prog, i):
     """reference rate of node/leaf i (nodes are ints >= 0 indexing prog['nodes'], leaves are names)"""
     if isinstance(i, str):
         return LEAF_RATE[i]
-    return max(ref_rate(prog, a) for a in prog['nodes'][i][1:])
+    n = prog['nodes'][i]
+    return max(ref_rate(prog, a) for a in (n[2:] if n[0] == 'maddl' else n[1:]))
 
 
 def well_formed(prog):
@@ -120,7 +121,9 @@ def den_src(prog, consts):
             v = a[0] / a[1]
         elif op == 'madd':
             v = a[0] * a[1] + a[2]
-        elif op == 'sum':
+        elif op == 'maddl':
+            v = a[1] * a[2] + a[3]
+        elif op in ('sum', 'mix', 'sumn'):
             v = a[0]
             for x in a[1:]:
                 v = v + x
@@ -176,6 +179,13 @@ def run_prog(ctx, prog):
                 v = a[0].madd(a[1], a[2])
             elif op == 'sum':
                 v = ugn.ChannelList(a).sum()
+            elif op == 'maddl':
+                # list form with channels of different rates: the node is the SECOND channel
+                v = ugn.ChannelList([a[0], a[1]]).madd(a[2], a[3])[1]
+            elif op == 'mix':
+                v = MIX().new(list(a))
+            elif op == 'sumn':
+                v = (ugn.Sum3 if len(a) == 3 else ugn.Sum4).new(*a)
             elif op in UN_SRC and len(a) == 1:
                 v = UN_SRC[op](a[0])
             else:
@@ -236,8 +246,8 @@ def run_prog(ctx, prog):
     #     source (or a documented rewrite: + - * neg) can produce
     allowed_b = {scgf.BINARY_INDEX[n[0]] for n in prog['nodes'] if n[0] in scgf.BINARY_INDEX and len(n) == 3}
     allowed_u = {scgf.UNARY_INDEX[n[0]] for n in prog['nodes'] if n[0] in scgf.UNARY_INDEX and len(n) == 2}
-    rewrite_b = {0, 1, 2} if any(n[0] in ('+', '-', '*', '/', 'neg', 'madd', 'sum') for n in prog['nodes']) else set()
-    rewrite_u = {0} if any(n[0] in ('-', '*', '/', 'madd', 'neg') for n in prog['nodes']) else set()
+    rewrite_b = {0, 1, 2} if any(n[0] in ('+', '-', '*', '/', 'neg', 'madd', 'maddl', 'sum', 'mix', 'sumn') for n in prog['nodes']) else set()
+    rewrite_u = {0} if any(n[0] in ('-', '*', '/', 'madd', 'maddl', 'neg') for n in prog['nodes']) else set()
     for i, u in enumerate(d['ugens']):
         if u['cls'] == 'BinaryOpUGen' and u['spec'] not in allowed_b | rewrite_b:
             raise Violation(f'binary operator unit carries opcode {u["spec"]} ({scgf.BINARY[u["spec"]]}), source '
@@ -317,6 +327,11 @@ def enum_ring(nmax, leaves):
     return out
 
 
+def MIX():
+    from sc3.synth.ugens import mix
+    return mix.Mix
+
+
 def programs(tier):
     progs = []
     if tier == 'quick':
@@ -349,6 +364,19 @@ def programs(tier):
         tmpl.append(([('sum', *combo)], [0]))
     for combo in itertools.product(['A', 'K', 'c1'], repeat=4):
         tmpl.append(([('sum', *combo)], [0]))
+    # the n-ary sum units built directly and through Mix (constants in every position: their == 0 shortcuts)
+    for combo in itertools.product(['A', 'B', 'c1'], repeat=3):
+        tmpl.append(([('sumn', *combo)], [0]))
+        tmpl.append(([('mix', *combo)], [0]))
+    for combo in itertools.product(['A', 'B', 'c1'], repeat=4):
+        if combo.count('c1') <= 2:
+            tmpl.append(([('sumn', *combo)], [0]))
+            tmpl.append(([('mix', *combo)], [0]))
+    tmpl.append(([('mix', 'A', 'B', 'K', 'c1', 'A', 'c2', 'B')], [0]))
+    # list forms of madd over channels of different rates (each channel's unit has the rate of ITS inputs)
+    for x, y in (('A', 'K'), ('K', 'A'), ('A', 'B'), ('K', 'K')):
+        for m, a in (('c1', 'c2'), ('K', 'c1'), ('c1', 'K'), ('A', 'c1')):
+            tmpl.append(([('maddl', x, y, m, a)], [0]))
     for op in ['+', '*', '-']:
         # sharing: the same object twice by one operator, rewritten sums used twice
         tmpl.append(([('+', 'A', 'B'), ('+', 0, 'K'), (op, 1, 1)], [2]))
@@ -436,6 +464,12 @@ def replay(rec):
                 v.append(a[0].madd(a[1], a[2]))
             elif op == 'sum':
                 v.append(ugn.ChannelList(a).sum())
+            elif op == 'maddl':
+                v.append(ugn.ChannelList([a[0], a[1]]).madd(a[2], a[3])[1])
+            elif op == 'mix':
+                v.append(MIX().new(list(a)))
+            elif op == 'sumn':
+                v.append((ugn.Sum3 if len(a) == 3 else ugn.Sum4).new(*a))
             elif op in UN_SRC and len(a) == 1:
                 v.append(UN_SRC[op](a[0]))
             else:
@@ -528,7 +562,9 @@ def replay(rec):
                 return a[0] / a[1] if a[1] != 0 else Fraction(0)
             if op == 'madd':
                 return a[0] * a[1] + a[2]
-            if op == 'sum':
+            if op == 'maddl':
+                return a[1] * a[2] + a[3]
+            if op in ('sum', 'mix', 'sumn'):
                 return sum(a)
             if op in scgf.UNARY_INDEX and len(a) == 1:
                 return ('unop', scgf.UNARY_INDEX[op], a[0])
